@@ -131,8 +131,8 @@ def run(argv, stdin=b"", env=None, cpu=10, wall=120, max_out=64 << 20):
         p = subprocess.Popen(r.argv, stdin=subprocess.PIPE if fobj is None else fobj, stdout=subprocess.PIPE,
                              stderr=subprocess.PIPE, env=e, preexec_fn=_preexec(cpu, 0))
     except OSError as ex:
-        r.rc, r.sig, r.out, r.err = 127, None, b"", str(ex).encode()
-        return r
+        # the binary is not there (any more): nothing was observed, this is the harness's failure, never a verdict
+        raise RuntimeError("harness: cannot execute %r: %s" % (r.argv[:1], ex))
     try:
         out, err = p.communicate(stdin, timeout=wall)
     except subprocess.TimeoutExpired:
